@@ -30,7 +30,7 @@ def ast_class_name(prog: Program, fn: Func, e: ast.AST) -> Optional[str]:
     return None
 
 
-LATER_RULES = " Later rules: R17.2 anchored at the operand swap; (R17.9) arithmetic on a matched constant's value needs an int-pinned template; (R17.10) and/or replaced by a truth value wherever it stands (known finding); (R17.11) function-name dispatch contradiction rule; (R17.12) a helper's 'nothing to simplify' is not a replacement; (R17.13) closed forms of sums need constant ordered bounds."
+LATER_RULES = " Later rules: R17.2 anchored at the operand swap; (R17.9) arithmetic on a matched constant's value needs an int-pinned template; (R17.10) and/or replaced by a truth value wherever it stands (known finding); (R17.11) function-name dispatch contradiction rule; (R17.12) a helper's 'nothing to simplify' is not a replacement; (R17.13) closed forms of sums need constant ordered bounds; (R17.14) a wildcard that is an operand in a replacement template is parenthesised by precedence, written between parentheses, restricted to tighter classes, or in the same position as in the find template."
 
 
 def check(prog: Program, tier: str) -> Result:
@@ -69,9 +69,209 @@ def check(prog: Program, tier: str) -> Result:
     _r17_11(prog, res)
     _r17_12(prog, res)
     _r17_13(prog, res)
-    res.floors.update({"R17.13": 2, "R17.12": 1, "R17.11": 3, "R17.10": 3, "R17.9": 3, "R17.1": 12, "R17.2": 10, "R17.3": 4, "R17.4": 40, "R17.5": 6, "R17.6": 4, "R17.7": 2, "R17.8": 1})
+    _r17_14(prog, res)
+    res.floors.update({"R17.14": 10, "R17.13": 2, "R17.12": 1, "R17.11": 3, "R17.10": 3, "R17.9": 3, "R17.1": 12, "R17.2": 10, "R17.3": 4, "R17.4": 40, "R17.5": 6, "R17.6": 4, "R17.7": 2, "R17.8": 1})
     res.analysed["bound_claims"] = n_claims
     return res
+
+
+# ------------------------------------------------------------------------------------------------ R17.14
+PRECEDENCE = {      # reference table: how tightly the operator of a node class binds (Python grammar), 16 = atom / primary
+    "NamedExpr": 0, "Lambda": 1, "Yield": 1, "YieldFrom": 1, "IfExp": 2, "Or": 3, "And": 4, "Not": 5, "Compare": 6, "Starred": 6,
+    "BitOr": 7, "BitXor": 8, "BitAnd": 9, "LShift": 10, "RShift": 10, "Add": 11, "Sub": 11, "Mult": 12, "Div": 12, "FloorDiv": 12,
+    "Mod": 12, "MatMult": 12, "UAdd": 13, "USub": 13, "Invert": 13, "Pow": 14, "Await": 15, "Attribute": 15, "Subscript": 15, "Call": 15,
+}
+
+
+def _level_of(node: ast.AST) -> Optional[int]:
+    """Precedence of the operator of a template node (None: not an operator a wildcard can be an operand of)."""
+    if isinstance(node, (ast.BoolOp, ast.BinOp, ast.UnaryOp)):
+        return PRECEDENCE[type(node.op).__name__]
+    return PRECEDENCE.get(type(node).__name__)
+
+
+def _operand_positions(template: str) -> Dict[str, List[Tuple[str, int, bool]]]:
+    """wildcard -> [(operator class, its precedence, explicitly parenthesised in the text)] for every place where the wildcard is an operand."""
+    import re as _re
+    import textwrap
+    out: Dict[str, List[Tuple[str, int, bool]]] = {}
+    probe = _re.sub(r"\{\{(\w+)\}\}", r"W__\1__", template)
+    try:
+        tree = ast.parse(textwrap.dedent(probe))
+    except SyntaxError:
+        return out
+    for node in ast.walk(tree):
+        level = _level_of(node)
+        if level is None:
+            continue
+        children = list(ast.iter_child_nodes(node))
+        if isinstance(node, ast.Subscript):
+            children = [node.value]
+        elif isinstance(node, ast.Call):
+            children = [node.func]
+        for ch in children:
+            if isinstance(ch, ast.Name) and ch.id.startswith("W__") and ch.id.endswith("__"):
+                name = ch.id[3:-2]
+                opname = type(node.op).__name__ if isinstance(node, (ast.BoolOp, ast.BinOp, ast.UnaryOp)) else type(node).__name__
+                out.setdefault(name, []).append((opname, level, False))
+    # explicit parentheses in the text: every occurrence of the wildcard is written `({{name}})`
+    for name in list(out):
+        bare = len(_re.findall(r"\{\{" + name + r"\}\}", template))
+        wrapped = len(_re.findall(r"\(\s*\{\{" + name + r"\}\}\s*\)", template))
+        if bare == wrapped:
+            out[name] = [(o, l, True) for o, l, _ in out[name]]
+    return out
+
+
+def _levels_assigned(prog: Program, f: Func) -> Dict[str, int]:
+    """Read the precedence function: `if isinstance(node, ast.K): return <int>` (also `A if isinstance(node.op, ast.Op) else B`) and the
+    module-level table it indexes for binary operators."""
+    out: Dict[str, int] = {}
+
+    def classes(test: ast.AST) -> List[str]:
+        if isinstance(test, ast.Call) and norm(test.func) == "isinstance" and len(test.args) == 2:
+            cs = test.args[1].elts if isinstance(test.args[1], ast.Tuple) else [test.args[1]]
+            return [norm(c).replace("ast.", "") for c in cs]
+        return []
+    for st in walk_own(f.node):
+        if not isinstance(st, ast.If):
+            continue
+        test, branch = st.test, st.body
+        while isinstance(test, ast.UnaryOp) and isinstance(test.op, ast.Not):
+            test, branch = test.operand, (st.orelse if branch is st.body else st.body)
+        if not (branch and isinstance(branch[0], ast.Return) and branch[0].value is not None):
+            continue
+        v = branch[0].value
+        if isinstance(v, ast.IfExp) and isinstance(v.test, ast.UnaryOp) and isinstance(v.test.op, ast.Not):
+            v = ast.IfExp(test=v.test.operand, body=v.orelse, orelse=v.body)
+        for cls in classes(test):
+            if isinstance(v, ast.Constant) and isinstance(v.value, int):
+                out.setdefault(cls, v.value)
+            elif isinstance(v, ast.IfExp) and isinstance(v.body, ast.Constant) and isinstance(v.orelse, ast.Constant):
+                ops = classes(v.test)
+                if cls == "BoolOp" and ops:
+                    other = "And" if ops[0] == "Or" else "Or"
+                    out[ops[0]], out[other] = v.body.value, v.orelse.value
+                elif cls == "UnaryOp" and ops:
+                    if ops[0] == "Not":
+                        out["Not"], out["USub"] = v.body.value, v.orelse.value
+                    else:
+                        out["USub"], out["Not"] = v.body.value, v.orelse.value
+            elif isinstance(v, ast.Subscript) and isinstance(v.value, ast.Name) and cls == "BinOp":
+                table = f.mod.globals.get(v.value.id)
+                tv = table if isinstance(table, ast.Dict) else getattr(table, "value", None)
+                if isinstance(tv, ast.Dict):
+                    for k, val in zip(tv.keys, tv.values):
+                        if k is not None and isinstance(val, ast.Constant):
+                            out[norm(k).replace("ast.", "")] = val.value
+    return out
+
+
+
+def _central_parenthesiser(prog: Program) -> Optional[str]:
+    """core.format_template gives the code of a wildcard parentheses when its precedence is not above that of the operator it becomes an operand
+    of: the substitution loop contains a comparison (<= / <) between a precedence of the VALUE and an entry of a table computed from the
+    TEMPLATE by a function that parses the template (ast.parse) - and the precedence function agrees with the reference table."""
+    fn = prog.funcs.get(("core", "format_template"))
+    if fn is None:
+        return None
+    table_fn = prec_fn = None
+    for c in prog.calls_in(fn):
+        r = prog.resolve_call(c.func, fn.mod, fn)
+        if r and r[0] == "fn":
+            body = norm(r[1].node)
+            if "ast.parse(" in body and "ast.iter_child_nodes(" in body and c.args and isinstance(c.args[0], ast.Name) and c.args[0].id in fn.posparams:
+                table_fn = r[1]
+            if "ast.IfExp" in body and "ast.BoolOp" in body and "ast.Compare" in body and "return" in body and len(r[1].posparams) == 1 and "ast.parse(" not in body:
+                prec_fn = r[1]
+    if table_fn is None or prec_fn is None:
+        return None
+    guarded = False
+    for n in walk_own(fn.node):
+        if isinstance(n, ast.Compare) and len(n.ops) == 1 and isinstance(n.ops[0], (ast.LtE, ast.Lt)):
+            left_calls = [x for x in ast.walk(n.left) if isinstance(x, ast.Call) and norm(x.func) == prec_fn.node.name]
+            if left_calls and isinstance(n.ops[0], ast.LtE):
+                guarded = True
+    if not guarded:
+        return None
+    # the precedence function against the reference table: the ORDER of the levels it assigns is the order of the grammar
+    levels = _levels_assigned(prog, prec_fn)
+    chain = ["NamedExpr", "Lambda", "IfExp", "Or", "And", "Not", "Compare", "BitOr", "BitXor", "BitAnd", "LShift", "Add", "Mult", "USub", "Pow"]
+    if any(k not in levels for k in chain):
+        return None
+    if any(not levels[a_] < levels[b_] for a_, b_ in zip(chain, chain[1:])):
+        return None
+    if not (levels["LShift"] == levels.get("RShift") and levels["Add"] == levels.get("Sub") and levels["Mult"] == levels.get("Div") == levels.get("FloorDiv") == levels.get("Mod")):
+        return None
+    return f"{fn.node.name}() compares {prec_fn.node.name}(value) with the operator table of {table_fn.node.name}(template)"
+
+
+def _r17_14(prog: Program, res: Result) -> None:
+    """A replacement template is TEXT: `return not {{condition}}` with the matched condition pasted in.  Where the wildcard is
+    an operand of an operator of the template, code whose own operator binds no tighter falls apart: `not p if c else q`
+    is `(not p) if c else q`, `a or b | {..}` is `a or (b | {..})`, `a + b.T` is `a + (b.T)`.  For every constant replacement
+    template of a find_replace call and every wildcard in operand position, one of: (a) the substitution parenthesises by
+    precedence (central mechanism in core.format_template, checked against the reference precedence table); (b) the
+    template itself writes `({{w}})`; (c) the wildcard is restricted by a keyword to node classes that bind tighter;
+    (d) the wildcard is an operand of the same operator class in the find template (same position, same grouping)."""
+    from ..defuse import assignments
+    central = _central_parenthesiser(prog)
+    n = 0
+    for fn in prog.funcs.values():
+        if fn.mod.name in ("core", "processing", "pattern_matching"):
+            continue
+        for c in prog.calls_in(fn):
+            r = prog.resolve_call(c.func, fn.mod, fn)
+            if not (r and r[0] == "fn"):
+                continue
+            callee = r[1]
+            if callee.key != ("processing", "find_replace"):
+                continue
+            def const_of(e):
+                if isinstance(e, ast.Name):
+                    defs = [(st, v) for st, v in assignments(fn, e.id) if v is not None and st.lineno <= c.lineno]
+                    e = max(defs, key=lambda sv: sv[0].lineno)[1] if defs else e
+                if isinstance(e, ast.Call) and norm(e.func).endswith("compile_template") and e.args:
+                    return const_of(e.args[0])          # a template compiled from a constant text
+                if isinstance(e, ast.Tuple) and e.elts:
+                    return const_of(e.elts[0])          # alternatives: judged by the first (they differ in a prefix only)
+                return e.value if isinstance(e, ast.Constant) and isinstance(e.value, str) else None
+            if len(c.args) < 3:
+                continue
+            find, replace = const_of(c.args[1]), const_of(c.args[2])
+            if replace is None:
+                continue
+            find_pos = _operand_positions(find) if find else {}
+            for name, places in sorted(_operand_positions(replace).items()):
+                for opname, level, wrapped in places:
+                    n += 1
+                    construct = f"{{{{{name}}}}} under {opname} # in the replacement `{' '.join(replace.split())[:50]}`"
+                    kw = next((k.value for k in c.keywords if k.arg == name), None)
+                    if wrapped:
+                        res.ok("R17.14", fn.loc(c), fn.fq, construct, "(b) written between parentheses in the template")
+                    elif any(o == opname for o, _l, _w in find_pos.get(name, [])):
+                        res.ok("R17.14", fn.loc(c), fn.fq, construct, "(d) an operand of the same operator in the find template")
+                    elif kw is not None and _all_tighter(kw, level):
+                        res.ok("R17.14", fn.loc(c), fn.fq, construct, f"(c) restricted to node classes that bind tighter than {opname}")
+                    elif central:
+                        res.ok("R17.14", fn.loc(c), fn.fq, construct, f"(a) {central}")
+                    else:
+                        res.bad("R17.14", fn.loc(c), fn.fq, construct,
+                                f"the code of {{{{{name}}}}} is pasted as an operand of {opname} without parentheses, whatever it is: code whose operator binds no "
+                                f"tighter (a conditional expression, and/or, a comparison ...) is regrouped - `not p if c else q` means `(not p) if c else q`")
+    res.analysed["operand_wildcards_in_replacements"] = n
+
+
+def _all_tighter(kw: ast.AST, level: int) -> bool:
+    classes = kw.elts if isinstance(kw, ast.Tuple) else [kw]
+    ok = True
+    for k in classes:
+        name = norm(k).replace("ast.", "")
+        tight = {"Name": 16, "Constant": 15, "Call": 16, "Attribute": 16, "Subscript": 16, "List": 16, "Dict": 16, "Set": 16, "ListComp": 16, "SetComp": 16, "DictComp": 16}
+        if tight.get(name, -1) <= level:
+            ok = False
+    return ok
+
 
 
 # ------------------------------------------------------------------------------------------------ R17.1
@@ -1356,6 +1556,11 @@ def _run_branch(stmts, state, c, cvar) -> None:
 from ..selftest import Variant  # noqa: E402
 
 VARIANTS = [
+    Variant("wildcard-operands-pasted-without-parentheses", "FIRE", "core", "        if isinstance(value, ast.expr) and _precedence(value) <= operand_wildcards.get(name, -1):\n            code = f\"({code})\"  # \"not {{x}}\" is about all of x, also if x is \"a or b\"\n", "", "R17.14"),
+    Variant("parentheses-only-for-strictly-looser-code", "FIRE", "core", "        if isinstance(value, ast.expr) and _precedence(value) <= operand_wildcards.get(name, -1):", "        if isinstance(value, ast.expr) and _precedence(value) < operand_wildcards.get(name, -1):", "R17.14"),
+    Variant("conditional-expression-ranked-above-not", "FIRE", "core", "    if isinstance(node, ast.IfExp):\n        return 2\n", "    if isinstance(node, ast.IfExp):\n        return 6\n", "R17.14"),
+    Variant("bitwise-or-ranked-below-comparison", "FIRE", "core", "    ast.BitOr: 7,\n", "    ast.BitOr: 5,\n", "R17.14"),
+    Variant("template-writes-its-own-parentheses", "SILENT", "fixes", "    replace = \"return not {{condition}}\"\n", "    replace = \"return not ({{condition}})\"\n", "R17.14"),
     Variant("closed-form-for-unknown-bounds", "FIRE", "symbolic_math",
             "    if start_value is None or end_value is None:\n        raise ValueError(\"The closed form needs start <= stop, which is only known for constants\")\n\n    if start_value > end_value:\n        return ast.Constant(value=0, kind=None)\n\n", "", "R17.13"),
     Variant("helper-hands-its-argument-back", "FIRE", "symbolic_math", "        raise ValueError(\"Only a range with step 1 has this closed form\")", "        return rng", "R17.12"),
